@@ -309,8 +309,75 @@ def updateSnapshots (h : Hook) (cl : Cluster) (c : Ctx) : Ctx :=
 def runFile (v : Version) (h : Hook) (cl : Cluster) (os : List Origin) : Option J :=
   renderList v (os.map (fun o => updateSnapshots h cl (mkCtx o)))
 
+/-! ## Conversion links: `EnableConversionBindings` / `HandleEvent` (conversion_bindings_controller.go) -/
+
+/-- `htypes.ConversionConfig`: one kubernetesCustomResourceConversion binding with its `conversions`. -/
+structure ConvB where
+  name : String
+  crd : String
+  group : String := ""
+  inc : List String := []
+  rules : List (String × String) := []     -- Webhook.Rules: (fromVersion, toVersion), configuration order
+  deriving Inhabited
+
+/-- `ConversionBindingToWebhookLink`. -/
+structure Link where
+  binding : String
+  inc : List String
+  group : String
+  fromV : String
+  toV : String
+  deriving Repr, DecidableEq
+
+/-- `Links map[crdName]map[Rule]*Link` as an association list: an assignment puts the pair in front,
+a lookup takes the first pair with the key (= the last assignment). -/
+abbrev Links := List ((String × String × String) × Link)
+
+def Links.find (m : Links) (crd : String) (r : String × String) : Option Link :=
+  (m.find? (fun kv => kv.1 = (crd, r.1, r.2))).map (·.2)
+
+def linkOf (b : ConvB) (r : String × String) : Link :=
+  { binding := b.name, inc := b.inc, group := b.group, fromV := r.1, toV := r.2 }
+
+/-- The inner loop of `EnableConversionBindings`: a fresh link per rule of the binding. -/
+def enableRules (b : ConvB) (m : Links) : Links :=
+  b.rules.foldl (fun m r => ((b.crd, r.1, r.2), linkOf b r) :: m) m
+
+/-- `EnableConversionBindings`: for every binding, for every rule of it. -/
+def enableConversion (bs : List ConvB) : Links := bs.foldl (fun m b => enableRules b m) []
+
+/-- `HandleEvent(crdName, request, rule)`: `none` = "no binding was registered" (no context). -/
+def handleConversion (m : Links) (crd : String) (r : String × String) (uid : String) : Option Ctx :=
+  (m.find crd r).map (fun l =>
+    { btype := .conversion, binding := l.binding, review := uid, fromVersion := l.fromV, toVersion := l.toV,
+      includeSnapshots := l.inc, group := l.group })
+
+/-- Seeded variant (C09-w5m1): one link per binding, allocated before the rules loop; the loop only
+overwrites its versions and stores the same pointer under every rule key — after the loop every rule of
+the binding sees the versions of the last rule. -/
+def enableRulesShared (b : ConvB) (m : Links) : Links :=
+  match b.rules.getLast? with
+  | none => m
+  | some last => b.rules.foldl (fun m r => ((b.crd, r.1, r.2), linkOf b last) :: m) m
+
+def enableConversionShared (bs : List ConvB) : Links := bs.foldl (fun m b => enableRulesShared b m) []
+
 /-! ## Spec: the documented contract -/
 namespace Spec
+
+/-- The clause "`snapshots` … exactly when the binding includes snapshots", with the content of the
+inclusion: the keys of `snapshots` are the names in the binding's own includeSnapshotsFrom plus the
+kubernetes bindings of its group — no other binding's, none missing (`shown = none`: the item has no
+`snapshots`). In terms of the configuration as written only (`own`, `groupKbs`). -/
+def snapKeysClause (own groupKbs : List String) (shown : Option (List String)) : Bool :=
+  let want := own ++ groupKbs
+  match shown with
+  | none => want.isEmpty
+  | some ks => !want.isEmpty && ks.all (fun k => want.contains k) && want.all (fun k => ks.contains k)
+
+/-- Names of the kubernetes bindings (name, group as written) that are in group `g`. -/
+def groupKbs (raw : List (String × String)) (g : String) : List String :=
+  (raw.filter (fun kg => g ≠ "" ∧ kg.2 = g)).map (·.1)
 
 /-- One object as the documentation shows it inside `objects`, `snapshots` or an Event context. -/
 structure ObjView where
